@@ -26,7 +26,7 @@ import zlib
 
 from . import common
 from .c16_gen import (PYWS, gen_range_header, gen_len, gen_request, gen_elements_value,
-                      enum_small_headers, enum_decision_table, content_bytes, httpdate)
+                      enum_small_headers, enum_medium_headers, enum_decision_table, content_bytes, httpdate)
 
 PROPERTY = 'C16'
 LEAN_TARGETS = ['CpProofs.C16', 'CpProofs.C16Cond', 'CpProofs.C16Elems', 'CpProofs.C16Multipart', 'drv_c16']
@@ -1035,7 +1035,7 @@ def _worker(args):
                 cases.append((gen_range_header(rng, n), n))
             check_unit(sub, cases, compare=True)
         elif what == 'exh':
-            hs = enum_small_headers()
+            hs = enum_small_headers() + enum_medium_headers()
             cases = [(h, n) for n in range(lo, hi) for h in hs]
             check_unit(sub, cases, compare=True)
         else:
@@ -1150,7 +1150,9 @@ def run(ctx):
             for d in common.parallel_map(_worker, jobs):
                 merge(ctx, d)
             mark('thorough_parallel')
-            ctx.extra['exhaustive_small_scope'] = 'lengths 0..40 x %d small-grammar headers' % len(hs)
+            ctx.extra['exhaustive_small_scope'] = ('lengths 0..40 x %d small-grammar headers (all lists of <= 2 specs '
+                                                   'over 8 boundary positions, plus whitespace / invalid variants)'
+                                                   % (len(hs) + len(enum_medium_headers())))
             ctx.extra['thorough_unit_strings'] = 48 * 50000
             ctx.extra['thorough_requests'] = 48 * 4000
     finally:
